@@ -19,6 +19,12 @@ def run(tier, seed, verdict):
     for (pid, spec, tok, lv) in progs:
         fn = gen_stream.scenarios_for if "stream" in spec else expr_check.scenarios_for
         scen[pid] = fn(spec, tok, rng, budget)
+        if gen_expr.has_op(spec, ("lvw_stop_source", "lvw_stop_token", "any_sender")):
+            # users of fused_stop_source / inplace_stop_token_adapter: with a stop request the recorded use-after-free
+            # (source destroyed inside its own request_stop, e.g. when sequence() destroys the finished predecessor from
+            # inside the stop callback) makes the unsanitized configurations crash or spin without a report to key on;
+            # the differential keeps these programs but without stop injection
+            scen[pid] = [sc for sc in scen[pid] if not sc.get("stop", (0, 0, 0))[0]]
         for sc in scen[pid]:
             # this differential is about results, not lifetimes: the receiver neither destroys the operation nor frees its
             # stop source inside the completion here (those regimes are C02/C04's and, where the library has a recorded
@@ -199,6 +205,8 @@ def run(tier, seed, verdict):
     assume = list(ASSUME) + [
         "only g++ 12 / libstdc++ configurations; task<> plans are compared among the C++20 configurations only (quick: release "
         "without visitation vs debug with visitation)",
+        "programs that use fused_stop_source / inplace_stop_token_adapter (let_value_with_stop_source/_token, any_sender_of) run "
+        "without stop injection here: under a stop request the recorded use-after-free crashes the unsanitized configurations",
         "async_trace is inspected from inside task<> bodies only (the chain must reach the outer receiver where async stacks and "
         "visitation are both on); async-stack balance is checked at scenario quiescence on the driver thread",
     ]
